@@ -72,6 +72,13 @@ def gen_input(rng):
     return n.date(), "date", "date"
 
 
+def with_metadata(rng, x):
+    """the same instant as a STIXdatetime that already carries (possibly different) precision metadata, e.g. a timestamp
+    taken from another object's property"""
+    from stix2.utils import STIXdatetime
+    return STIXdatetime(x, precision=rng.choice(PRECISIONS), precision_constraint=rng.choice(CONSTRAINTS))
+
+
 def in_range(us):
     return 0 <= us <= ts.MAX_US
 
@@ -142,6 +149,11 @@ def wl_datetimes(ctx, rng, i):
         nontriv = x_us % 1000000 != 0 or off not in ("naive", "+00:00", "date", "pytz.utc", "UTC") or x.year < 1000
         for p, c in PC:
             got = judge(ctx, x, form, off, p, c, x_us)
+            if form != "date":
+                # the value arrives as a STIXdatetime with metadata of its own (same or different); only the target's counts
+                xm = with_metadata(rng, x)
+                judge(ctx, xm, "stixdatetime[%s/%s]" % (xm.precision.name.lower(), xm.precision_constraint.name.lower()), off, p, c, x_us)
+                ctx.count("stixdatetime_inputs")
             if nontriv:
                 ctx.nontrivial(x_us, off, p, c, form)
             ctx.see("input forms", form)
@@ -250,6 +262,7 @@ def wl_strings(ctx, rng, i):
 WORKLOADS = [
     Workload("datetimes", wl_datetimes, quick=500, thorough=16000),
     Workload("strings", wl_strings, quick=150, thorough=4000),
+    __import__("stixmon.ambient", fromlist=["workload"]).workload("C15"),
 ]
 
 
